@@ -82,6 +82,9 @@ theorem encode_length (n : Nat) : (encode n).length = size n := by
     · rfl
     · simp [ih (n / 128) (by omega)]; omega
 
+theorem size_small (n : Nat) (h : n < 128) : size n = 1 := by
+  rw [size]; simp [h]
+
 theorem size_pos (n : Nat) : 0 < size n := by
   unfold size; split <;> omega
 
